@@ -34,7 +34,8 @@ theorem map_level_bound (ihmax : Nat) (hi : 1 ≤ ihmax) (zmin zmax : Int) (r : 
 theorem partitionM_spec (nk nth ihmax : Nat) (spec : Array Int) (iqFill : Int) (tr : Bool)
     (hk : 1 ≤ nk) (ht : 1 ≤ nth) (hi : 1 ≤ ihmax) (hs : spec.size = nk * nth) :
     ⦃fun o => ⌜o = false⌝⦄ partitionM nk nth ihmax (Neigh.table nk nth) spec iqFill tr
-    ⦃⇓ r o => ⌜o = false ∧ r.fuelOut = false⌝⦄ := by
+    ⦃⇓ r o => ⌜o = false ∧ r.fuelOut = false ∧ (r.const = false →
+      r.ind.toList = (ptsortSpec ihmax (nk * nth) (levOf r.imi)).map (fun (x : Nat) => (x : Int)))⌝⦄ := by
   have hnb := table_ok nk nth
   have hpos : 1 ≤ nk * nth := Nat.mul_pos hk ht
   have s1 := @ptsort_spec ihmax (nk * nth)
@@ -56,10 +57,10 @@ theorem partitionM_spec (nk nth ihmax : Nat) (spec : Array Int) (iqFill : Int) (
   case vc25 =>
     exact map_level_bound _ hi _ _ _ _ (by omega)
   case vc31 =>
-    rename_i hne _ _ _ _ himp
+    have hne := ‹¬(_ == _) = true›
     apply Classical.byContradiction
     intro hlt
-    have := himp (by omega)
+    have := ‹nk * nth ≤ 1 → _› (by omega)
     simp [this] at hne
 
 end WS.Fld
